@@ -72,6 +72,20 @@ func distinctKeys(tags osm.Tags) bool {
 	return true
 }
 
+// tagSet is the tag set as the harness sees it (built here, not through tag.go): key -> value,
+// presence kept apart from emptiness.
+func tagSet(tags osm.Tags) map[string]string {
+	m := make(map[string]string, len(tags))
+	for _, t := range tags {
+		if _, dup := m[t.Key]; !dup {
+			m[t.Key] = t.Value
+		}
+	}
+	return m
+}
+
+// specArea is the LITERAL published rule: a listed key counts when it is PRESENT with a value
+// other than "no" (an empty value is a value); for the area tag the property says "non-empty".
 func specArea(m map[string]string) bool {
 	if m["area"] == "no" {
 		return false
@@ -80,8 +94,8 @@ func specArea(m map[string]string) bool {
 		return true
 	}
 	for _, r := range published {
-		v := m[r.key]
-		if v == "" || v == "no" {
+		v, present := m[r.key]
+		if !present || v == "no" {
 			continue
 		}
 		in := false
@@ -106,15 +120,32 @@ func specArea(m map[string]string) bool {
 	return false
 }
 
+// knownEmptyValueClass: the input class of the known finding, decided from the input alone:
+// a tag set (distinct keys) in which some listed key is present with an EMPTY value.
+const emptyValueClass = "empty-value-on-listed-key"
+
+func knownClass(tags osm.Tags) string {
+	if !distinctKeys(tags) {
+		return ""
+	}
+	m := tagSet(tags)
+	for _, r := range published {
+		if v, present := m[r.key]; present && v == "" {
+			return emptyValueClass
+		}
+	}
+	return ""
+}
+
 func specWay(ids []int64, tags osm.Tags) bool {
 	if len(ids) < 4 || ids[0] != ids[len(ids)-1] {
 		return false
 	}
-	return specArea(tags.Map())
+	return specArea(tagSet(tags))
 }
 
 func specRel(tags osm.Tags) bool {
-	t := tags.Map()["type"]
+	t := tagSet(tags)["type"]
 	return t == "multipolygon" || t == "boundary"
 }
 
@@ -360,7 +391,7 @@ func wayCaseN(class string, ns []wn, tags osm.Tags) *wire.Case {
 		}
 	}
 	obs := callWay(w)
-	c := &wire.Case{Class: class}
+	c := &wire.Case{Class: class, Known: knownClass(tags)}
 	c.Int(1).Len(len(ns))
 	for _, n := range ns {
 		c.Int(n.id).Bool(n.ann)
@@ -459,6 +490,9 @@ func waySeqCase(class string, steps []seqStep) *wire.Case {
 		}
 		putTags(c, st.tags)
 		c.Int(int64(obs))
+		if k := knownClass(st.tags); k != "" {
+			c.Known = k
+		}
 		row := map[string]interface{}{"call": i + 1, "edit_before_call": how, "node_ids": idsOf(st.ns), "tags": showTags(st.tags), "observed": obsName(obs)}
 		if distinctKeys(st.tags) {
 			exp := specWay(idsOf(st.ns), st.tags)
@@ -506,7 +540,7 @@ func findCase(class string, tags osm.Tags, key string) *wire.Case {
 	pstr(c, obs)
 	d := map[string]interface{}{"call": "Tags.Find", "tags": showTags(tags), "key": show(key), "observed": show(obs)}
 	if distinctKeys(tags) {
-		exp := tags.Map()[key]
+		exp := tagSet(tags)[key]
 		d["expected"] = show(exp)
 		if obs != exp {
 			c.OracleFail = fmt.Sprintf("Tags.Find(%q) = %q, the tag set has %q", key, obs, exp)
